@@ -11,7 +11,7 @@ Families (complete products):
           kinds: every target receives the value itself (type and identity observed)
   ops     13 operators x target {name, attribute, subscript, slice} x left/right operand types
           {int, float, str, list, tuple, set, dict, bytearray, frozenset, user class with in-place method,
-          without, with an in-place method returning a new object, with one returning NotImplemented} x placement {global, local, nonlocal,
+          without, with an in-place method returning a new object, with one returning NotImplemented} x placement {global, local, nonlocal, two nonlocal levels / global declaration (reduced operand table),
           class body}; an alias of the left operand and the number of stores are observed
 Oracle : stdout (repr of every target and alias, identity alias-vs-target, store counts) and final
          globals equal CPython's; programs on which CPython raises are outside the fragment.
@@ -250,7 +250,9 @@ def ops_programs():
                 for tk in ("name", "attr", "sub", "slice"):
                     if tk == "slice" and lt not in ("list", "bytearray", "tuple", "str"):
                         continue
-                    for pl in ("global", "local", "nonlocal", "class"):
+                    for pl in ("global", "local", "nonlocal", "class", "nonlocal2", "globaldecl"):
+                        if pl in ("nonlocal2", "globaldecl") and not (lt in ("int", "list", "WI", "NI", "str") and rt in ("int", "list", "str")):
+                            continue  # the deeper store routes are explored over a reduced operand table
                         key = "c13:ops:%s:%s:%s:%s:%s" % (_DUNDER[op], lt, rt, tk, pl)
                         if tk == "name":
                             setup, tgt, read = "x = %s\nalias = x" % lv, "x", "x"
@@ -272,6 +274,15 @@ def ops_programs():
                         elif pl == "nonlocal":
                             decl = "nonlocal x, alias" if tk == "name" else "nonlocal h, alias"
                             body = "def f():\n%s\n    def g():\n        %s\n%s\n    g()\n%s\nf()\n" % (_ind(setup), decl, _ind(_ind(stmt)), _ind(show))
+                        elif pl == "nonlocal2":
+                            # two nonlocal levels that both rebind the variable: the store must reach the scope where it was born
+                            decl = "nonlocal x, alias" if tk == "name" else "nonlocal h, alias"
+                            rebind = "x = x" if tk == "name" else "h = h"
+                            body = "def f():\n%s\n    def g():\n        %s\n        %s\n        def k():\n            %s\n%s\n        k()\n    g()\n%s\nf()\n" % (
+                                _ind(setup), decl, rebind, decl, _ind(_ind(_ind(stmt))), _ind(show))
+                        elif pl == "globaldecl":
+                            decl = "global x, alias" if tk == "name" else "global h, alias"
+                            body = "%s\ndef f():\n    %s\n%s\nf()\n%s\n" % (setup, decl, _ind(stmt), show)
                         else:
                             body = "class K:\n%s\n" % _ind("%s\n%s\n%s" % (setup, stmt, show))
                         yield key, CLS + body
